@@ -231,8 +231,12 @@ def run_job(spec):
         E.count()
         return E
 
+    path_pairs = []
+    path_flag = [False]
+
     def report_violation(e, key, cond, pairs):
         "pairs: list of (descA, descB, cmp kwargs) to replay"
+        path_pairs.extend(pairs)
         if seen.get(key, 0) >= 2:
             return
         if cond is not None:
@@ -242,6 +246,7 @@ def run_job(spec):
         else:
             m = e.model()
         seen[key] = seen.get(key, 0) + 1
+        path_flag[0] = True
         items = []
         for (dA, dB, kw) in pairs:
             items.append(dict(textA=concrete_text(dA, m), optionsA=dA['options'], textB=concrete_text(dB, m), optionsB=dB['options'], kw=kw))
@@ -275,8 +280,8 @@ def run_job(spec):
                 else:
                     report_violation(e, 'presentation:value', z3.Or(*x) if x else z3.BoolVal(False), pairs)
             elif mode == 'opts':
-                dA = dict(base, options=dict(spec['optionsA']))
-                dB = dict(base, options=dict(spec['optionsB']))
+                dA = dict(base, options=dict(spec['optionsA']), extra=(base['extra'] + ' ' + spec.get('extraA', '')).strip())
+                dB = dict(base, options=dict(spec['optionsB']), extra=(base['extra'] + ' ' + spec.get('extraB', '')).strip())
                 EA = count(build_symbolic(dA))
                 EB = count(build_symbolic(dB))
                 kw = dict(ignore_msgs=bool(spec.get('ignore_msgs')), skip_logs=bool(spec.get('skip_logs')))
@@ -287,8 +292,12 @@ def run_job(spec):
                 else:
                     report_violation(e, 'options:value', z3.Or(*x) if x else z3.BoolVal(False), [(dA, dB, kw)])
             elif mode == 'twice':
-                EA = count(build_symbolic(base))
-                EB = count(build_symbolic(base))
+                # the same profile object handed to two fresh Election objects, one after the other
+                from droop.election import Election
+                EA = build_symbolic(base)
+                prof = EA.electionProfile
+                count(EA)
+                EB = count(Election(prof, dict(base['options'])))
                 kind, x = compare_records(EA, EB)
                 reach('pair-compared')
                 if kind == 'STRUCT':
@@ -389,6 +398,17 @@ def run_job(spec):
                 raise core.HarnessError('unknown diff mode %s' % mode)
         finally:
             signal.setitimer(signal.ITIMER_REAL, 0)
+        # differential validation of the engine: this path's own model, counted by the pristine code, must agree
+        if path_pairs and not path_flag[0] and spec.get('validate', True) and (eng.stats['paths'] % int(spec.get('validate_every', 1)) == 0):
+            m = e.models[-1] if e.models else e.model()
+            items = [dict(textA=concrete_text(dA, m), optionsA=dA['options'], textB=concrete_text(dB, m), optionsB=dB['options'], kw=kw)
+                     for (dA, dB, kw) in path_pairs[:3]]
+            rep = pristine.ask(dict(kind='call', module='harness.diffrun', function='replay_pairs', kwargs=dict(items=items, mode=mode)))
+            res['validated_n'] = res.get('validated_n', 0) + 1
+            if rep.get('violated') or 'error' in rep:
+                res['harness_errors'].append(dict(why='pair equal symbolically but not on the pristine code: %s %s' % (rep, json.dumps(items)[:500])))
+        del path_pairs[:]
+        path_flag[0] = False
         if len(res['samples']) < 2 and eng.stats['paths'] % 37 == 0:
             m = e.models[-1] if e.models else e.model()
             res['samples'].append(dict(mode=mode, blt=concrete_text(base, m), options=base['options']))
@@ -406,7 +426,7 @@ def run_job(spec):
     res['stats'] = dict(eng.stats)
     res['path_status'] = getattr(eng, 'path_status', {})
     res['stubs'] = list(shims.STUBS)
-    res['validated'] = 0
+    res['validated'] = res.get('validated_n', 0)
     res['wall_s'] = round(time.time() - t0, 2)
     return res
 
